@@ -31,16 +31,25 @@ def _negating(fn):
     return f
 
 
+def _zeroing(fn):
+    """some pairs of *different* conditions are exactly 0 apart (categorical model RDMs, identical patterns): every fifth
+    (r + 2a + 2b); such an entry is a value like any other, not a missing one"""
+    def f(r, a, b):
+        return 0.0 if (r + 2 * min(a, b) + 2 * max(a, b)) % 5 == 0 else fn(r, a, b)
+    return f
+
+
 _VFN = {}
 
 
 def value_fn_of(spec):
     if spec.get('wide'):
         return enc_wide
-    key = (spec.get('dtype') == 'int64' or bool(spec.get('enc2')), bool(spec.get('neg')))
+    key = (spec.get('dtype') == 'int64' or bool(spec.get('enc2')), bool(spec.get('neg')), bool(spec.get('zeros')))
     if key not in _VFN:
         base = enc2 if key[0] else enc
-        _VFN[key] = _negating(base) if key[1] else base
+        base = _negating(base) if key[1] else base
+        _VFN[key] = _zeroing(base) if key[2] else base
     return _VFN[key]
 
 
@@ -187,6 +196,8 @@ def gen_rdms_spec(rng, n_rdm=(1, 6), n_cond=(3, 9), nan_prob=0.25, groupings=Tru
         spec['rdm_desc']['roi_xyz'] = {'values': [[float(u), u * 2.0, 1.0] for u in rdm_uids], 'container': 'array'}
     if dtypes and rng.chance(0.25):
         spec['neg'] = True
+    if dtypes and rng.chance(0.15):
+        spec['zeros'] = True
     if dtypes and rng.chance(0.12) and nr > 1:
         # a user-supplied 'index' for the RDMs (session number per subject ...): values repeat and are not positional
         spec['rdm_desc']['index'] = {'values': [i % max(1, nr // 2) for i in range(nr)], 'container': rng.pick(['list', 'array'])}
